@@ -22,6 +22,7 @@ fn main() {
         ["replay", "eval"] => eval::replay(&args),
         ["replay", "trunc"] => strategy::replay_trunc(&args),
         ["replay", "dist"] => strategy::replay_dist(&args),
+        ["replay", "import"] => strategy::replay_import(&args),
         other => {
             eprintln!("unknown command {other:?}");
             std::process::exit(2);
